@@ -432,6 +432,50 @@ func TestC17(t *testing.T) {
 				return
 			}
 		}
+		// walk all the way back from the last page, following the previous token of each page
+		// that was itself reached through previous; from some of them step forward again
+		if len(pages) >= 2 && rapid.Bool().Draw(rt, "fullBackward") {
+			nontrivial = true
+			labels = append(labels, "full-backward-walk")
+			cur := pages[len(pages)-1]
+			for i := len(pages) - 2; i >= 0; i-- {
+				if cur.Previous == "" {
+					record()
+					fail("C17/no-previous", "walking back from the last page: the page at position %d offers no previous page", i+1)
+					return
+				}
+				b := w.Follow(cur.Previous)
+				if b.Err != "" {
+					record()
+					fail("C17/cursor-rejected/"+layer, "walking back: the previous token at position %d is not accepted: %s", i+1, b.Err)
+					return
+				}
+				if strings.Join(b.IDs, ",") != strings.Join(pages[i].IDs, ",") {
+					record()
+					fail("C17/previous-chain", "walking back from the last page, step to position %d yields %v, the page there is %v", i, b.IDs, pages[i].IDs)
+					return
+				}
+				if !b.HasMore || b.Next == "" {
+					record()
+					fail("C17/previous-chain", "the page at position %d, reached through previous, says it has no next page", i)
+					return
+				}
+				if rapid.IntRange(0, 2).Draw(rt, "zigzag") == 0 {
+					f := w.Follow(b.Next)
+					if f.Err != "" || strings.Join(f.IDs, ",") != strings.Join(pages[i+1].IDs, ",") {
+						record()
+						fail("C17/next-after-previous", "next of the page at position %d (reached through previous) yields %v %s, the page after it is %v", i, f.IDs, f.Err, pages[i+1].IDs)
+						return
+					}
+				}
+				cur = b
+			}
+			if cur.Previous != "" {
+				record()
+				fail("C17/previous-on-first", "the first page, reached by walking back, offers a previous page")
+				return
+			}
+		}
 		// every statement of the walk carries the filter of the first request
 		if len(eng.Conjuncts) > 0 {
 			first := strings.Join(eng.Conjuncts[0], " & ")
